@@ -2,7 +2,7 @@
    of every shipped codepage (n_codepages pages, 256 single-byte entries each + n_dbcs_entries two-byte
    entries), lifted to universally quantified statements with forallb_forall. *)
 From Coq Require Import String ZArith List Bool Lia.
-From PCB Require Import lib.Result lib.PyInt lib.Harness gen.Gen_codepages gen.Gen_codepages_dbcs model.Codepage.
+From PCB Require Import lib.Result lib.PyInt lib.Harness gen.Gen_codepages gen.Gen_codepages_dbcs model.Codepage proofs.Codepage_proofs.
 Import ListNotations.
 Open Scope Z_scope.
 
@@ -183,4 +183,26 @@ Lemma get_codepage_in name : (if find_codepage name then true else false) = true
 Proof.
   unfold get_codepage. destruct (find_codepage name) as [t|] eqn:E; [|discriminate].
   intros _. exact (find_codepage_in name t E).
+Qed.
+
+(* the cluster lists of every shipped page: no empty cluster, longest first (what _split_unicode relies on) *)
+Definition check_clusters (r : raw_codepage) : bool :=
+  forallb (fun cl => nonempty cl) r.(rc_clusters) && sorted_desc r.(rc_clusters).
+
+Lemma all_clusters_ok : forallb check_clusters raw_codepages = true.
+Proof. vm_compute. reflexivity. Qed.
+
+Lemma clusters_ok t : In t all_codepages ->
+  clusters_nonempty t /\ sorted_desc t.(t_clusters) = true.
+Proof.
+  unfold all_codepages. intros H. apply in_map_iff in H as (r & <- & Hr).
+  pose proof (proj1 (forallb_forall _ _) all_clusters_ok r Hr) as H. unfold check_clusters in H.
+  apply andb_true_iff in H as [H1 H2]. split; [|exact H2].
+  unfold clusters_nonempty. cbn [tables_of t_clusters]. apply Forall_forall. intros cl Hcl.
+  pose proof (proj1 (forallb_forall _ _) H1 cl Hcl) as Hne. destruct cl; [discriminate | discriminate].
+Qed.
+
+Lemma mem_seq_In x l : mem_seq x l = true -> In x l.
+Proof.
+  unfold mem_seq. rewrite existsb_exists. intros (y & Hy & E). apply list_Z_eqb_eq in E. now subst.
 Qed.
